@@ -713,3 +713,258 @@ Proof.
   - now apply exec_refines.
   - now apply refines_same.
 Qed.
+
+(* ======================================================================================== *)
+(* Theorems over EVERY history of operations from the empty store                            *)
+(* ======================================================================================== *)
+
+Lemma run_app ops1 ops2 s : run (ops1 ++ ops2) s = run ops2 (run ops1 s).
+Proof. unfold run. apply fold_left_app. Qed.
+Lemma run_cons o ops s : run (o :: ops) s = run ops (snd (step o s)).
+Proof. reflexivity. Qed.
+
+Lemma run_inv ops : forall s, Inv [] s -> Inv [] (run ops s).
+Proof.
+  induction ops as [| o r IH]; intros s HI; [exact HI|].
+  rewrite run_cons. apply IH. exact (proj1 (step_refines s o HI)).
+Qed.
+
+Lemma reachable_inv ops : Inv [] (run ops empty_store).
+Proof. apply run_inv, Inv_empty. Qed.
+
+(* number of Tensor objects whose handle points at block i *)
+Definition handles_on (s : state) (i : bufid) : nat :=
+  length (filter (fun h => match h with Some (Hd _ _ j) => j =? i | _ => false end) (vars s)).
+
+Lemma npoint_handles s i : npoint (vars s) i = handles_on s i.
+Proof.
+  unfold handles_on, npoint. induction (vars s) as [| h r IH]; [reflexivity|].
+  simpl. rewrite IH. destruct h as [[| d sh j]|]; simpl; try reflexivity. now destruct (j =? i).
+Qed.
+
+Lemma npoint_pos_exists vs i : 0 < npoint vs i -> exists z d sh, nth z vs None = Some (Hd d sh i).
+Proof.
+  induction vs as [| h r IH]; intro Hp; [inversion Hp|].
+  rewrite npoint_cons in Hp. destruct (pts h i) eqn:Ep.
+  - destruct (IH Hp) as (z & d & sh & Hz). now exists (S z), d, sh.
+  - exists 0. destruct h as [[| d sh j]|]; simpl in Ep; try discriminate.
+    destruct (Nat.eqb_spec j i) as [->|]; [|discriminate]. now exists d, sh.
+Qed.
+
+(* 1. the use count of every live buffer is the number of handles pointing at it *)
+Theorem count_invariant ops i b : let s := run ops empty_store in
+  bufs s i = Some b -> count b = handles_on s i /\ 1 <= count b.
+Proof.
+  intros s Hb. destruct (inv_count _ _ (reachable_inv ops) i b Hb) as [Hc Hp].
+  fold s in Hc. rewrite <- npoint_handles. change (cnt [] i) with 0 in Hc. split; [lia | exact Hp].
+Qed.
+
+(* 2. every concrete step is the value-semantics step on the abstraction *)
+Theorem cow_refines_values ops o : let s := run ops empty_store in
+  fst (step o s) = fst (vstep o (abs s)) /\
+  forall z, abs (snd (step o s)) z = snd (vstep o (abs s)) z.
+Proof. intros s. exact (proj2 (step_refines s o (reachable_inv ops))). Qed.
+
+(* the specification changes nothing but the targets of the operation ... *)
+Lemma vstep_frame o e z : ~ In z (targets o) -> snd (vstep o e) z = e z.
+Proof.
+  intro Hz. unfold vstep. destruct (vwf_op e o); [|reflexivity].
+  destruct o; simpl in Hz; unfold vexec, vview, vinplace;
+    repeat match goal with
+           | |- context [match ?t with _ => _ end] => destruct t
+           end; simpl; try reflexivity; unfold vupd;
+    repeat match goal with
+           | |- context [z =? ?x] => destruct (Nat.eqb_spec z x); [subst; exfalso; apply Hz; simpl; auto|]
+           end; reflexivity.
+Qed.
+
+(* ... hence so does the implementation model: no other name ever observes the operation *)
+Theorem cow_frame ops o z : let s := run ops empty_store in
+  ~ In z (targets o) -> abs (snd (step o s)) z = abs s z.
+Proof.
+  intros s Hz. destruct (cow_refines_values ops o) as [_ H]. fold s in H. rewrite H.
+  now apply vstep_frame.
+Qed.
+
+(* 3. moves *)
+Theorem move_leaves_source_invalid ops x y : let s := run ops empty_store in
+  exists_var s y = true -> x <> y ->
+  let s' := snd (step (Move x y) s) in
+  fst (step (Move x y) s) = Some OUnit /\ abs s' y = AInv /\ abs s' x = abs s y /\
+  forall z, z <> x -> z <> y -> abs s' z = abs s z.
+Proof.
+  intros s Hy Hne s'. destruct (cow_refines_values ops (Move x y)) as [Hr Ha]. fold s in Hr, Ha. fold s' in Ha.
+  unfold vstep in Hr, Ha. simpl vwf_op in Hr, Ha. rewrite <- exists_abs, Hy in Hr, Ha.
+  unfold vexec in Hr, Ha. destruct (Nat.eqb_spec x y); [contradiction|]. simpl in Hr, Ha.
+  split; [exact Hr|]. split; [|split].
+  - rewrite Ha. unfold vupd. now rewrite Nat.eqb_refl.
+  - rewrite Ha. unfold vupd. destruct (Nat.eqb_spec x y); [contradiction|]. now rewrite Nat.eqb_refl.
+  - intros z Hzx Hzy. rewrite Ha. unfold vupd.
+    destruct (Nat.eqb_spec z y); [contradiction|]. now destruct (Nat.eqb_spec z x).
+Qed.
+
+Theorem self_move_is_noop s x : exists_var s x = true -> step (Move x x) s = (Some OUnit, s).
+Proof.
+  intro Hx. unfold step. simpl wf_op. rewrite Hx. unfold exec. mrun.
+  unfold exists_var in Hx. destruct (var s x); [|discriminate]. now rewrite Nat.eqb_refl.
+Qed.
+
+(* 4. an invalid Tensor rejects every access and every arithmetic use; nothing changes.
+   (For ANY state, not only reachable ones.) *)
+Definition reads (o : op) : list name :=
+  match o with
+  | Reshape _ y _ _ | Flatten _ y | CopyDev _ y _ | MulCNew _ y _ => [y]
+  | AddNew _ y z => [y; z]
+  | IAdd x y | ISub x y => [x; y]
+  | IMulC x _ | Reset x _ | ResetVec x _
+  | GetShape x | GetDevice x | ToVector x | ToFloat x => [x]
+  | _ => []
+  end.
+
+Lemma binop_invalid s f x y z : (z = x \/ z = y) -> var s z = Some Invalid ->
+  exists_var s x = true -> exists_var s y = true -> t_inplace_binop f x y s = (None, s).
+Proof.
+  intros Hz Hv Hx Hy. unfold t_inplace_binop. mrun.
+  destruct Hz as [->| ->].
+  - now rewrite Hv.
+  - unfold exists_var in Hx. destruct (var s x) as [[| dx sx ix]|] eqn:Ex; try discriminate; [reflexivity|].
+    mrun. now rewrite Hv.
+Qed.
+
+Lemma dev_scalar_invalid s x dv a k z : (z = a \/ z = k) -> var s z = Some Invalid ->
+  exists_var s a = true -> dev_scalar x dv a k s = (None, s).
+Proof.
+  intros Hz Hv Ha. unfold dev_scalar. mrun. destruct Hz as [->| ->].
+  - now rewrite Hv.
+  - unfold exists_var in Ha. destruct (var s a) as [[| da sa ia]|] eqn:Ea; try discriminate; [reflexivity|].
+    mrun. destruct (da =? dv); mrun; [|reflexivity]. now rewrite Hv.
+Qed.
+
+Lemma dev_ab_invalid s x dv a k z : (z = a \/ z = k) -> var s z = Some Invalid ->
+  exists_var s a = true -> dev_ab x dv a k s = (None, s).
+Proof.
+  intros Hz Hv Ha. unfold dev_ab. mrun. destruct Hz as [->| ->].
+  - now rewrite Hv.
+  - unfold exists_var in Ha. destruct (var s a) as [[| da sa ia]|] eqn:Ea; try discriminate; [reflexivity|].
+    mrun. destruct (da =? dv); mrun; [|reflexivity]. now rewrite Hv.
+Qed.
+
+Theorem invalid_rejects s o x : wf_op s o = true -> In x (reads o) -> var s x = Some Invalid ->
+  step o s = (None, s).
+Proof.
+  intros Hwf Hin Hv. unfold step. rewrite Hwf.
+  destruct o; simpl in Hin; try contradiction; simpl in Hwf.
+  - (* Reshape *) destruct Hin as [<-|[]]. unfold exec. mrun. destruct (mk_shape ds b); mrun; [|reflexivity].
+    unfold t_view. mrun. now rewrite Hv.
+  - (* Flatten *) destruct Hin as [<-|[]]. unfold exec, t_view. mrun. now rewrite Hv.
+  - (* CopyDev *) destruct Hin as [<-|[]]. unfold exec, t_copy_dev. mrun. now rewrite Hv.
+  - (* AddNew *) apply andb_true_iff in Hwf as [Hy Hz].
+    assert (Hc : x = y \/ x = z) by (destruct Hin as [<-|[<-|[]]]; auto). clear Hin.
+    unfold exec, unit_out, bind at 1.
+    assert (E : t_add_new x0 y z s = (None, s)); [|now rewrite E].
+    unfold t_add_new. mrun.
+    unfold exists_var in Hy. destruct (var s y) as [[| dy sy iy]|] eqn:Ey; try discriminate; [reflexivity|].
+    mrun. destruct (is_scalar sy).
+    + apply (dev_scalar_invalid s x0 dy z y x); [tauto | exact Hv | exact Hz].
+    + unfold exists_var in Hz. destruct (var s z) as [[| dz sz iz]|] eqn:Ez; try discriminate; [reflexivity|].
+      mrun. destruct (is_scalar sz).
+      * apply (dev_scalar_invalid s x0 dy y z x); [exact Hc | exact Hv |]. unfold exists_var. now rewrite Ey.
+      * apply (dev_ab_invalid s x0 dy y z x); [exact Hc | exact Hv |]. unfold exists_var. now rewrite Ey.
+  - (* MulCNew *) destruct Hin as [<-|[]]. unfold exec, t_mulc_new. mrun. now rewrite Hv.
+  - (* IAdd *) apply andb_true_iff in Hwf as [Hx Hy]. unfold exec, unit_out, bind at 1.
+    rewrite (binop_invalid s Z.add x0 y x); auto. destruct Hin as [<-|[<-|[]]]; auto.
+  - (* ISub *) apply andb_true_iff in Hwf as [Hx Hy]. unfold exec, unit_out, bind at 1.
+    rewrite (binop_invalid s Z.sub x0 y x); auto. destruct Hin as [<-|[<-|[]]]; auto.
+  - destruct Hin as [<-|[]]. unfold exec, t_inplace_mulc. mrun. now rewrite Hv.
+  - destruct Hin as [<-|[]]. unfold exec, t_reset. mrun. now rewrite Hv.
+  - destruct Hin as [<-|[]]. unfold exec, t_reset_by_vector. mrun. now rewrite Hv.
+  - destruct Hin as [<-|[]]. unfold exec. mrun. now rewrite Hv.
+  - destruct Hin as [<-|[]]. unfold exec. mrun. now rewrite Hv.
+  - destruct Hin as [<-|[]]. unfold exec. mrun. now rewrite Hv.
+  - destruct Hin as [<-|[]]. unfold exec. mrun. now rewrite Hv.
+Qed.
+
+(* a moved-from or default-constructed Tensor IS invalid: valid() answers false *)
+Theorem invalid_is_reported s x : var s x = Some Invalid -> step (IsValid x) s = (Some (OBool false), s).
+Proof.
+  intro Hv. unfold step. simpl wf_op. unfold exists_var. rewrite Hv. unfold exec. mrun. now rewrite Hv.
+Qed.
+
+(* 5. no leak, no early release, no double release *)
+Theorem no_leak ops : let s := run ops empty_store in
+  (forall i, bufs s i <> None <-> exists x d sh, var s x = Some (Hd d sh i)) /\
+  (forall x d sh i, var s x = Some (Hd d sh i) ->
+     exists b, bufs s i = Some b /\ length (contents b) = nsize sh) /\
+  NoDup (freed s) /\
+  (forall i, In i (freed s) -> bufs s i = None /\ forall x d sh, var s x <> Some (Hd d sh i)) /\
+  (forall i, i < next s -> bufs s i <> None \/ In i (freed s)) /\
+  (forall i, next s <= i -> bufs s i = None /\ ~ In i (freed s)).
+Proof.
+  intros s. pose proof (reachable_inv ops) as HI. fold s in HI.
+  destruct HI as [I1 I2 I3 I4 I5 I6 I7].
+  split; [|split; [exact I2 | split; [exact I5 | split; [|split; [|exact I4]]]]].
+  - intro i. split.
+    + intro Hl. destruct (bufs s i) as [b|] eqn:Eb; [|contradiction].
+      destruct (I1 i b Eb) as [Hc Hp]. change (cnt [] i) with 0 in Hc.
+      destruct (npoint_pos_exists (vars s) i) as (z & d & sh & Hz); [lia|]. now exists z, d, sh.
+    + intros (x & d & sh & Hx). destruct (I2 x d sh i Hx) as (b & Hb & _). now rewrite Hb.
+  - intros i Hi. split; [now apply I6|]. intros x d sh Hx.
+    destruct (I2 x d sh i Hx) as (b & Hb & _). rewrite (I6 i Hi) in Hb. discriminate.
+  - intros i Hi. destruct (bufs s i) eqn:Eb; [left; discriminate | right; now apply I7].
+Qed.
+
+Corollary nothing_left_at_end ops : let s := run ops empty_store in
+  (forall x, var s x = None \/ var s x = Some Invalid) -> forall i, bufs s i = None.
+Proof.
+  intros s Hall i. destruct (no_leak ops) as [Hl _]. fold s in Hl.
+  destruct (bufs s i) eqn:Eb; [|reflexivity]. exfalso.
+  destruct (proj1 (Hl i)) as (x & d & sh & Hx); [rewrite Eb; discriminate|].
+  destruct (Hall x) as [E|E]; rewrite E in Hx; discriminate.
+Qed.
+
+(* ---- the self-aliasing cases, spelled out -------------------------------------------------- *)
+
+Corollary self_inplace ops (f : bool) x d sh v : let s := run ops empty_store in
+  abs s x = AVal d sh v ->
+  let o := (if f then IAdd x x else ISub x x) in
+  let g := (if f then Z.add else Z.sub) in
+  fst (step o s) = Some OUnit /\
+  abs (snd (step o s)) x = AVal d sh (inplace_spec g sh sh v v) /\
+  forall z, z <> x -> abs (snd (step o s)) z = abs s z.
+Proof.
+  intros s Ha o g.
+  assert (Hdims : has_same_dims sh sh && has_compatible_batch sh sh = true).
+  { unfold has_same_dims, has_compatible_batch. rewrite !N.eqb_refl. simpl.
+    assert (forall l, list_eqb l l = true) as Hl by (induction l; simpl; [reflexivity | now rewrite N.eqb_refl]).
+    now rewrite Hl. }
+  destruct (cow_refines_values ops o) as [Hr Hz]. fold s in Hr, Hz.
+  assert (Hv : vstep o (abs s) = (Some OUnit, vupd (abs s) x (AVal d sh (inplace_spec g sh sh v v)))).
+  { unfold o, g, vstep. destruct f; simpl vwf_op; unfold vexists; rewrite Ha; simpl andb;
+      unfold vexec, vinplace; rewrite Ha, Nat.eqb_refl, Hdims; reflexivity. }
+  rewrite Hv in Hr, Hz. simpl in Hr, Hz. split; [exact Hr|]. split.
+  - rewrite Hz. unfold vupd. now rewrite Nat.eqb_refl.
+  - intros z Hne. rewrite Hz. unfold vupd. now destruct (Nat.eqb_spec z x).
+Qed.
+
+Corollary self_copy ops x : let s := run ops empty_store in
+  exists_var s x = true -> forall z, abs (snd (step (Copy x x) s)) z = abs s z.
+Proof.
+  intros s Hx z. destruct (cow_refines_values ops (Copy x x)) as [_ Hz]. fold s in Hz. rewrite Hz.
+  unfold vstep. simpl vwf_op. rewrite <- exists_abs, Hx. unfold vexec; simpl. unfold vupd.
+  now destruct (Nat.eqb_spec z x) as [->|].
+Qed.
+
+(* a view and its origin: writing through either one leaves the other unchanged *)
+Corollary view_then_write ops x y ds b k : let s := run ops empty_store in
+  x <> y ->
+  let s1 := snd (step (Reshape x y ds b) s) in
+  fst (step (Reshape x y ds b) s) = Some OUnit ->
+  abs (snd (step (IMulC x k) s1)) y = abs s y /\ abs (snd (step (IMulC y k) s1)) x = abs s1 x.
+Proof.
+  intros s Hne s1 Hok.
+  assert (E1 : s1 = run (ops ++ [Reshape x y ds b]) empty_store) by (now rewrite run_app).
+  split.
+  - rewrite E1. rewrite cow_frame by (simpl; intros [E|[]]; now apply Hne).
+    rewrite <- E1. unfold s1. apply cow_frame. simpl. intros [E|[]]. now apply Hne.
+  - rewrite E1. apply cow_frame. simpl. intros [E|[]]. now apply Hne.
+Qed.
